@@ -50,6 +50,12 @@ for _m in (1, 2):
     for _s in (0, 2):
         for _k in range(CIPHER_SPAN):
             CASES.append(("cipher-stall", _m, _s, _k))
+# the same plaintext stall points of the Titan shapes with an (allowing) middleware
+# chain in front of the upload handler: the chain must not disarm the timer
+for _m in range(3):
+    for _s in (2, 3):
+        for _k in range(len(SHAPES[_s][1]) + 1):
+            CASES.append(("plain-stall-mw", _m, _s, _k))
 NENUM = len(CASES)
 
 TIERS = {"quick": NENUM + 20000, "thorough": NENUM + 2000000}
@@ -57,6 +63,7 @@ CHUNK = 120
 RULE = (f"fault enumeration: runs 0..{NENUM - 1} enumerate every stall point - after every plaintext "
         f"byte offset of 4 request shapes x 3 transport modes, and after every ciphertext byte "
         f"offset 0..{CIPHER_SPAN - 1} of the client's handshake flights x 2 TLS backends x 2 shapes; "
+        f"the Titan stall points again behind an allowing middleware chain; "
         f"the remaining runs are seeded: late data at T-e/T/T+e, slow handler or middleware "
         f"(up to 5 x T) after a complete request, 1-byte dribble that never completes, peer "
         f"disconnect around the deadline, random stalls. distinct = distinct (case, event "
@@ -106,9 +113,11 @@ def run_one(ch):
         kind, m, s, k = CASES[ch.choose("case", NENUM)]
         mode = sw.MODES[m]
         name, stream = SHAPES[s]
-        if kind == "plain-stall":
+        if kind in ("plain-stall", "plain-stall-mw"):
             sc["script"] = ([("send", stream[:k])] if k else []) + [("stall",)]
             sc["sent"] = stream[:k]
+            if kind == "plain-stall-mw":
+                sc["mwdelay"] = 0.0
         else:
             sc["script"] = [("send", stream), ("stall",)]
             sc["stall_cipher"] = k
@@ -153,6 +162,8 @@ def run_one(ch):
             sc["disconnect"] = how
             sc["case"] = f"disconnect/{name}/k={k}/{how}/delta={delta}"
         else:           # random ciphertext stall anywhere in the client's stream
+            if ch.chance("stallmw", 0.4):
+                sc["mwdelay"] = ch.pick("stallmwd", [0.0, 0.05, 2.0])
             sc["script"] = [("send", stream), ("stall",)]
             if mode != "plain":
                 sc["stall_cipher"] = ch.choose("ck", 700 + len(stream))
@@ -174,7 +185,8 @@ def run_one(ch):
 
         class Slow:
             async def process_request(self, url, ip, fp=None):
-                await asyncio.sleep(sc["mwdelay"])
+                if sc["mwdelay"]:
+                    await asyncio.sleep(sc["mwdelay"])
                 return True, None
         mw = MiddlewareChain([Slow()])
     out = {}
